@@ -100,6 +100,69 @@ func TestVerifC06(t *testing.T) {
 			}
 		})
 	}
+	// additional data of 2^29 bytes and more: the bit length no longer fits 32 bits. The oracle is exact
+	// and cheap: leading ZERO blocks leave the (initially zero) GHASH state at zero, so the tag for
+	// 0^(2^29) || aad' equals the model's computation over aad' alone with the true length in the
+	// length block.
+	{
+		const zeros = 1 << 29
+		key, nonce := rng.Bytes(16), rng.Bytes(12)
+		tail := rng.Bytes(21)
+		pt := rng.Bytes(37)
+		huge := make([]byte, zeros+len(tail))
+		copy(huge[zeros:], tail)
+		want := ref.NewGCM(key).SealZeroPrefixedAAD(nonce, pt, zeros, tail, 16)
+		for _, asm := range paths() {
+			asm := asm
+			if !asm && !hk.Thorough() {
+				continue // the std-lib generic path needs seconds for 512 MiB; thorough only
+			}
+			withAsm(asm, func() {
+				a, err := newAEAD(key, 12, 16)
+				if err != nil {
+					return
+				}
+				got := a.Seal(nil, nonce, pt, huge)
+				if !bytes.Equal(got, want) {
+					r.Violation(fmt.Sprintf("seal-differs-from-sp800-38d:%s:aad>=2^29-bytes", pathName(asm)), hk.D{"key": hk.Hex(key), "nonce": hk.Hex(nonce), "aad": "0^(2^29) || " + hk.Hex(tail), "pt": hk.Hex(pt), "got": hk.Hex(got), "want": hk.Hex(want)})
+				}
+				// and the forgery this would enable: the short-aad message must not open under the long aad
+				short := ref.NewGCM(key).Seal(nonce, pt, tail, 16)
+				if _, err := a.Open(nil, nonce, short, huge); err == nil {
+					r.Violation(fmt.Sprintf("open-accepts-message-under-zero-prefixed-aad:%s", pathName(asm)), hk.D{"key": hk.Hex(key)})
+				}
+				r.Eval(pathName(asm) + "|aad>=2^29-bytes")
+			})
+		}
+	}
+	// ONE AEAD shared by all workers sealing different messages at the same time
+	for _, asm := range paths() {
+		asm := asm
+		withAsm(asm, func() {
+			pn := pathName(asm)
+			key := rng.Bytes(16)
+			a, err := newAEAD(key, 13, 16)
+			if err != nil {
+				return
+			}
+			g := ref.NewGCM(key)
+			type job struct{ nonce, aad, pt, want []byte }
+			jobs := make([]job, hk.N(3000, 30000))
+			for i := range jobs {
+				j := job{nonce: rng.Bytes(13), aad: rng.Bytes(rng.Pick([]int{0, 5, 16, 21})), pt: rng.Bytes(rng.Pick([]int{1, 5, 17, 33, 100}))}
+				jobs[i] = j
+			}
+			hk.Parallel(len(jobs), func(i int) {
+				j := &jobs[i]
+				want := g.Seal(j.nonce, j.pt, j.aad, 16)
+				got := a.Seal(nil, j.nonce, j.pt, j.aad)
+				if !bytes.Equal(got, want) {
+					r.Violation(fmt.Sprintf("seal-differs-from-sp800-38d:%s:shared-aead-concurrent", pn), hk.D{"key": hk.Hex(key), "nonce": hk.Hex(j.nonce), "aad": hk.Hex(j.aad), "pt": hk.Hex(j.pt)})
+				}
+			})
+			r.EvalN(pn+"|shared-aead-concurrent", len(jobs))
+		})
+	}
 	for _, asm := range paths() {
 		asm := asm
 		withAsm(asm, func() {
